@@ -83,6 +83,13 @@ mod operation;
 pub mod test_utils;
 pub mod traits;
 
+/// Verification hooks (only compiled with `--cfg p2panda_p2panda_verif`).
+#[cfg(p2panda_p2panda_verif)]
+#[doc(hidden)]
+pub mod verif {
+    pub use crate::group::crdt::state::{add, create, demote, merge, promote, remove};
+}
+
 pub use access::{Access, AccessError, AccessLevel};
 pub use extension::GroupsExtensionArgs;
 pub use operation::GroupsOperation;
